@@ -822,10 +822,33 @@ func (c *FnCtx) readVar(st *State, obj types.Object, pos token.Pos) string {
 		c.fail(pos, "unbound variable %s", obj.Name())
 	}
 	if b.cell {
+		if isStructType(b.typ) {
+			// an address-taken struct local lives in the field arrays, like every struct object reached through a pointer
+			return c.loadThrough(st, b.term, b.typ)
+		}
 		n, s := c.cellArr(b.typ)
 		return sel(c.h(st, n, s), b.term)
 	}
 	return b.term
+}
+
+func isStructType(t types.Type) bool {
+	if isBufferType(t) || isReflectValue(t) {
+		return false
+	}
+	_, ok := t.Underlying().(*types.Struct)
+	return ok
+}
+
+// storeStructCell writes a whole struct value into the field arrays at ref r (a local's own storage: no frame check).
+func (c *FnCtx) storeStructCell(st *State, r string, t types.Type, v string) {
+	s := t.Underlying().(*types.Struct)
+	v = c.name(st, "sv", v, c.tt.sortOf(t))
+	for i := 0; i < s.NumFields(); i++ {
+		f := s.Field(i)
+		n, srt := c.fieldArr(t, f.Name())
+		c.setH(st, n, srt, store(c.h(st, n, srt), r, "("+c.tt.fieldAcc(t, f.Name())+" "+v+")"))
+	}
 }
 
 func (c *FnCtx) declareLocal(st *State, obj types.Object, term string) {
@@ -834,6 +857,11 @@ func (c *FnCtx) declareLocal(st *State, obj types.Object, term string) {
 	}
 	v, _ := obj.(*types.Var)
 	if v != nil && c.addrTaken(v) {
+		if isStructType(v.Type()) {
+			r := c.allocStruct(st, v.Type(), term)
+			st.vars[obj] = &binding{term: r, cell: true, typ: v.Type()}
+			return
+		}
 		r := c.newRef(st, "cell_"+v.Name())
 		n, s := c.cellArr(v.Type())
 		c.setH(st, n, s, store(c.h(st, n, s), r, term))
@@ -966,6 +994,10 @@ func (c *FnCtx) assignVar(st *State, obj types.Object, term string, pos token.Po
 		return
 	}
 	if b.cell {
+		if isStructType(b.typ) {
+			c.storeStructCell(st, b.term, b.typ, term)
+			return
+		}
 		n, s := c.cellArr(b.typ)
 		c.setH(st, n, s, store(c.h(st, n, s), b.term, term))
 		return
@@ -997,6 +1029,25 @@ func (c *FnCtx) addrTaken(v *types.Var) bool {
 					if id, ok := x.(*ast.Ident); ok {
 						if o := info.Uses[id]; o != nil {
 							m[o] = true
+						}
+					}
+				}
+				// x.M(...) with a pointer receiver on an addressable struct variable x takes &x implicitly
+				if call, ok := n.(*ast.CallExpr); ok {
+					if se, ok := unparen(call.Fun).(*ast.SelectorExpr); ok {
+						if sel := info.Selections[se]; sel != nil && sel.Kind() == types.MethodVal {
+							if fn, ok := sel.Obj().(*types.Func); ok {
+								if recv := fn.Type().(*types.Signature).Recv(); recv != nil {
+									_, wantPtr := recv.Type().Underlying().(*types.Pointer)
+									if id, isID := unparen(se.X).(*ast.Ident); isID && wantPtr {
+										if o := info.Uses[id]; o != nil {
+											if _, havePtr := o.Type().Underlying().(*types.Pointer); !havePtr && isStructType(o.Type()) {
+												m[o] = true
+											}
+										}
+									}
+								}
+							}
 						}
 					}
 				}
